@@ -82,6 +82,18 @@ func (vc *VC) keyGhost(g *GhostDecl) string {
 	return key
 }
 
+// keyGhostChan: the send counter is kept per channel element type (channels of
+// different types cannot alias).
+func (vc *VC) keyGhostChan(g *GhostDecl, chanType types.Type) string {
+	suffix := ""
+	if ct, ok := chanType.Underlying().(*types.Chan); ok {
+		suffix = "#" + typeKey(ct.Elem())
+	}
+	key := "G:" + g.Name + suffix
+	vc.regKind(&ArrKind{Key: key, Sort: fmt.Sprintf("(Array %s %s)", *g.Key, g.Val), Idx: *g.Key, Val: g.Val})
+	return key
+}
+
 func (vc *VC) keyBM() string {
 	vc.regKind(&ArrKind{Key: "BM", Sort: "(Array Int V)", Idx: SInt, Val: SV})
 	return "BM"
